@@ -12,11 +12,11 @@ namespace Roaring
 /-- on sorted lists the `and` merge is the filter by membership -/
 theorem Arr.and_eq_filter (l r : List Nat) (hl : Sorted l) (hr : Sorted r) :
     Arr.and l r = l.filter (fun x => decide (x ∈ r)) := by
-  apply sorted_ext_local _ _ (Arr.sorted_and l r hl hr) (List.Pairwise.sublist List.filter_sublist hl)
+  apply Arr.sorted_ext _ _ (Arr.sorted_and l r hl hr) (List.Pairwise.sublist List.filter_sublist hl)
   intro x; rw [Arr.mem_and l r hl hr]; simp
 
 theorem Arr.and_comm (l r : List Nat) (hl : Sorted l) (hr : Sorted r) : Arr.and l r = Arr.and r l := by
-  apply sorted_ext_local _ _ (Arr.sorted_and l r hl hr) (Arr.sorted_and r l hr hl)
+  apply Arr.sorted_ext _ _ (Arr.sorted_and l r hl hr) (Arr.sorted_and r l hr hl)
   intro x; rw [Arr.mem_and l r hl hr, Arr.mem_and r l hr hl]; exact And.comm
 
 /-- `|{x ∈ l | x ∈ r}| = |{x ∈ r | x ∈ l}|` for sorted lists -/
@@ -34,17 +34,7 @@ theorem sorted_subset_length_le (l r : List Nat) (hl : Sorted l) (hr : Sorted r)
 
 namespace Store
 
-theorem canon_inv (s : Store) (h : s.Canon) : s.Inv := by
-  cases s with
-  | array v => exact h.1
-  | bitmap b => exact h.1
-
-theorem wf_canon (s : Store) (h : s.WF) : s.Canon := by
-  cases s with
-  | array v => exact ⟨h.1, h.2.2⟩
-  | bitmap b => exact h
-
-theorem wf_inv (s : Store) (h : s.WF) : s.Inv := canon_inv s (wf_canon s h)
+/-! `Store.canon_inv`, `Store.wf_canon`, `Store.wf_inv` are the core library's (`Lemmas/StoreFacts.lean`). -/
 
 /-- store/mod.rs:176 `is_disjoint` -/
 theorem isDisjoint_spec (K : BKernel) (s t : Store) (hs : s.Inv) (ht : t.Inv) :
@@ -120,7 +110,7 @@ end Store
 namespace Container
 
 /-- container.rs:177 `ensure_correct_store`: same key, same elements, canonical kind -/
-theorem ensureCorrectStore_spec (K : BKernel) (c : Container) (hc : c.store.Inv) :
+theorem ensureCorrectStore_specK (K : BKernel) (c : Container) (hc : c.store.Inv) :
     (ensureCorrectStore c).key = c.key ∧ (ensureCorrectStore c).store.Canon ∧
       (ensureCorrectStore c).store.elems = c.store.elems := by
   obtain ⟨key, store⟩ := c
@@ -151,7 +141,7 @@ theorem op_spec (K : BKernel) {P : Prop → Prop → Prop} {op : Store → Store
     c.key = a.key ∧ c.store.Canon ∧ ∀ x, x ∈ c.store.elems ↔ P (x ∈ a.store.elems) (x ∈ b.store.elems) := by
   intro c
   have hop := h a.store b.store ha hb
-  have he := ensureCorrectStore_spec K { key := a.key, store := op a.store b.store } hop.1
+  have he := ensureCorrectStore_specK K { key := a.key, store := op a.store b.store } hop.1
   exact ⟨he.1, he.2.1, fun x => by rw [he.2.2]; exact hop.2 x⟩
 
 /-- `x.isEmpty` of a canonical store ⇔ no elements -/
@@ -181,7 +171,7 @@ theorem isSubset_spec (K : BKernel) (a b : Container) (ha : a.store.Canon) (hb :
   have hbi := Store.canon_inv _ hb
   have hlen : (∀ x ∈ a.store.elems, x ∈ b.store.elems) → a.len ≤ b.len := by
     intro h
-    have := sorted_subset_length_le _ _ (Store.sorted_elems K _ hai) (Store.sorted_elems K _ hbi) h
+    have := sorted_subset_length_le _ _ (Store.sorted_elemsK K _ hai) (Store.sorted_elemsK K _ hbi) h
     rwa [Store.length_elems K _ hai, Store.length_elems K _ hbi] at this
   have core : a.store.isSubset b.store = true ↔ ∀ x ∈ a.store.elems, x ∈ b.store.elems := by
     obtain ⟨ka, sa⟩ := a
